@@ -3,6 +3,13 @@
 Correspondence of the faithful Lean model (PypyrModel/FmtParse.lean, Format.lean, FormatSpec.lean) with
 `Context.get_formatted_value`, `string.Formatter().parse`, `_string.formatter_field_name_split`, plus
 monitors that judge the implementation alone (harness/impl_c08.py) and the Lean `Spec.format` as oracle.
+
+SESSION stream: 2+ formatting calls on ONE Context with context updates in between (model: `Format.runCalls`,
+PypyrModel/FormatSession.lean, with `!py` assignment expressions at the top level of a call: `Format.evalPyW`).
+Monitors from the property text: every `!py` call gives what plain Python `eval(src, dict(context))` gives for the
+context as it is at that call (a missing name raises NameError), any call gives what it gives on a new Context with
+the same items, `{name}` gives the context value / KeyNotInContextError, no call changes the context. Calls whose
+source is outside the modelled sub-language (:= in comprehensions / lambdas) are IMPLEMENTATION-ONLY.
 """
 from __future__ import annotations
 
@@ -19,6 +26,7 @@ TRUSTED = [
     'harness/props/c08.py + harness/impl_c08.py (generators, canonicaliser, monitors)',
     'CPython 3.12: _string.formatter_parser / formatter_field_name_split, str.format_map, format(), repr/str/ascii, '
     'json.dumps, eval — modelled, validated by this correspondence',
+    'CPython eval(src, dict(context)) as the oracle of "evaluates as Python with context keys as variables" (sessions)',
 ]
 ASSUMPTIONS = [
     'format(value, spec) is modelled on the sub-language [[fill]align][sign][0][width][s|d] for str/int/bool and the '
@@ -29,6 +37,12 @@ ASSUMPTIONS = [
     'the id-keyed memo of _get_formatted_iterable is unobservable on tree values with pure !py expressions',
     'json.dumps TypeError messages are compared by kind only',
     'divergence: the model reports OutOfFuel where the implementation raises RecursionError',
+    'sessions: !py with assignment expressions is modelled at the top level of a call (Format.PyW, getEvalString); '
+    ':= inside comprehensions / lambdas and nested-scope reads run as IMPLEMENTATION-ONLY calls (distribution keys '
+    'session:call:pysrc(implonly)): judged by the monitors against plain Python eval(src, dict(context)), the model '
+    'answers `opaque`',
+    'session monitors peek at context._pystring_namespace (raw dict slot) only to CONFIRM the cause of a deviation '
+    'already established against plain Python',
 ]
 
 CHUNK = 2500
@@ -159,7 +173,12 @@ def check_cases(drv, cases, out):
                 out['violations'].append((c, 'cyclic references must not terminate with a value; implementation gave '
                                           + repr(impl)[:200], {'monitor': 'divergence'}, impl))
         if impl != model:
-            out['mismatches'].append((c, model, impl, 'get_formatted_value'))
+            if 'ok' in impl and 'ok' in model and I.has_multi_set({'t': [c['v'], c['ctx']]}) and I.py_equal(model['ok'], impl['ok']):
+                # which of two ==-equal members (True / 1) of a set survives depends on the set's iteration order:
+                # CPython's hash order vs the wire order the model iterates in - not an observable
+                count('set-survivor-depends-on-iteration-order')
+            else:
+                out['mismatches'].append((c, model, impl, 'get_formatted_value'))
         # features
         if isinstance(c['v'], str) and k in ('grammar', 'directed'):
             feature_counts(c['v'], count)
@@ -172,6 +191,10 @@ def check_cases(drv, cases, out):
                 count('basic_agrees:skipped-malformed')
             elif 'err' in b['faithful'] and b['faithful']['err']['msg'].startswith('unhashable type'):
                 count('basic_agrees:skipped-unhashable-key')   # not in the basic model
+            elif 'ok' in b['basic'] and I.numeric_collision(b['basic']['ok']):
+                # True == 1 == 1.0 as set members / dict keys: the basic model compares keys structurally
+                # (Python key equality is outside its domain), the faithful model and the code merge them
+                count('basic_agrees:skipped-numerically-equal-keys')
             else:
                 count('basic_agrees:compared')
                 if I.model_obs(b['basic']) != I.model_obs(b['faithful']):
@@ -202,6 +225,112 @@ def check_cases(drv, cases, out):
                 out['violations'].append((c, f'{clause}: {detail}'[:600], sig, obs))
             if isinstance(c['v'], dict) and ({'sic', 'py', 'jsonify'} & set(c['v'])):
                 count('monitor:special-tag')
+
+
+def model_call(call):
+    return {'opaque': True} if 'pysrc' in call else call
+
+
+def check_sessions(drv, cases, out):
+    """Sessions: 2+ formatting calls on ONE Context with updates in between. Model = Format.runCalls."""
+    answers = drv.ask_many([('format.session', {'ctx': c['ctx'], 'calls': [model_call(x) for x in c['calls']]})
+                            for c in cases])
+    cnt = out['counts']
+
+    def count(key, by=1):
+        cnt[key] = cnt.get(key, 0) + by
+
+    for c, a in zip(cases, answers):
+        if isinstance(a, common.Reject):
+            count('rejected:session:' + str(a)[:40])
+            continue
+        obs, viol, hidden = I.run_session(c)
+        out['n'] += 1
+        out['nontrivial'].append(case_key(c))
+        if len(out['samples']) < 3 and len(cases) > 1:
+            out.setdefault('session_samples', []).append(c)
+        implonly = any('pysrc' in x for x in c['calls'])
+        count('session:' + ('with-implonly-call' if implonly else 'fully-modelled'))
+        count(f'session:calls={min(len(c["calls"]), 9)}')
+        if hidden:
+            count('session:raw-namespace-slot-written(observation)')
+        walrus_seen = False
+        excused = set()
+        keys = {k for k, _ in c['ctx']['d']}        # the context keys at each call (set / del applied)
+        for clause, detail, sig, o in viol:
+            out['violations'].append((c, f'{clause}: {detail}'[:700], sig, o))
+            if sig.get('construct') == I.LEFTOVER_SIG['construct']:
+                # reported as a violation with its precise cause; the model (which has the documented behaviour)
+                # is not compared at this call a second time
+                excused.add(detail.split(':')[0])          # 'call <i>'
+                count('finding:walrus-in-comprehension:' + sig['effect'])
+        for i, (call, io, mo) in enumerate(zip(c['calls'], obs, a['steps'])):
+            kind = next(iter(call))
+            if kind == 'pyw':
+                f = I.walrus_facts(I.py_src_w(call['pyw']))
+                w = bool(f and f['top'])
+                count('session:call:pyw' + (':walrus' if w else (':after-walrus' if walrus_seen else '')))
+                walrus_seen = walrus_seen or w
+            elif kind == 'pysrc':
+                count('session:call:pysrc(implonly)')
+            else:
+                count('session:call:' + kind)
+            if kind == 'set':
+                keys.add(call['set'][0])
+            elif kind == 'del':
+                keys.discard(call['del'])
+            if io is None:
+                continue
+            if 'unencodable' in io:
+                count('session:unencodable-result')
+                continue
+            count('session:outcome:' + ('ok' if 'ok' in io else io['err']['name']))
+            if mo is None:                      # opaque: the model has no opinion
+                continue
+            if f'call {i}' in excused:
+                count('session:model-compare-skipped(violation with known cause reported at this call)')
+                continue
+            reads = (I.walrus_facts(I.py_src_w(call['pyw']))['reads'] if kind == 'pyw' else I._py_names_w(call.get('fmt')))
+            if (reads & I.BUILTIN_NAMES) - keys:
+                # a name that is no context key but a builtin: the model has no builtins (Python gives the builtin)
+                count('session:model-compare-skipped(reads a builtin name that is not a context key)')
+                continue
+            m = I.model_obs(mo)
+            if kind == 'pyw' and 'err' in m and m['err']['name'] != 'NameError':
+                m = {'err': {'name': m['err']['name'], 'msg': ''}}
+            if m != io:
+                out['mismatches'].append((c, {'call': i, 'model': m}, {'call': i, 'impl': io}, 'session: Format.runCalls'))
+
+
+DIRECTED_SESSIONS = [
+    # the shape of seeded/C08-2's demo: a := name, later the context key of that name
+    {'ctx': {'d': [['items', [3, 8, 12]]]}, 'calls': [
+        {'pyw': {'op': '+', 'a': {'w': ['limit', {'c': 10}]}, 'b': {'len': {'n': 'items'}}}}, {'pyw': {'n': 'limit'}},
+        {'fmt': '{limit}'}, {'set': ['limit', 3]}, {'pyw': {'op': '*', 'a': {'n': 'limit'}, 'b': {'c': 2}}},
+        {'fmt': '{limit}'}, {'fmt': 'limit is {limit}'}, {'pysrc': '[i for i in items if i > limit]'}]},
+    {'ctx': {'d': [['limit', 3]]}, 'calls': [
+        {'pyw': {'op': '+', 'a': {'w': ['limit', {'c': 10}]}, 'b': {'c': 1}}},
+        {'pyw': {'op': '*', 'a': {'n': 'limit'}, 'b': {'c': 2}}}, {'fmt': '{limit}'}, {'del': 'limit'},
+        {'pyw': {'n': 'limit'}}, {'fmt': '{limit}'}]},
+    # evaluation order and short circuit inside ONE evaluation
+    {'ctx': {'d': [['x', 5]]}, 'calls': [
+        {'pyw': {'op': '+', 'a': {'n': 'x'}, 'b': {'op': '+', 'a': {'w': ['x', {'c': 1}]}, 'b': {'n': 'x'}}}},
+        {'pyw': {'n': 'x'}},
+        {'pyw': {'op': '+', 'a': {'op': 'and', 'a': {'c': False}, 'b': {'w': ['y', {'c': 1}]}}, 'b': {'n': 'y'}}},
+        {'pyw': {'op': 'or', 'a': {'w': ['y', {'c': 0}]}, 'b': {'w': ['z', {'n': 'y'}]}}}, {'pyw': {'n': 'y'}},
+        {'pyw': {'n': 'z'}}, {'fmt': '{y}'}, {'fmt': ['{x}', {'py': {'n': 'x'}}, {'t': ['a{x}b']}]}]},
+    {'ctx': {'d': [['a', 1], ['b', 'txt']]}, 'calls': [
+        {'pyw': {'w': ['a', {'w': ['b', {'op': '+', 'a': {'n': 'a'}, 'b': {'c': 1}}]}]}}, {'pyw': {'n': 'a'}},
+        {'pyw': {'n': 'b'}}, {'fmt': '{a}{b}'}, {'set': ['b', [1, '{a}']]}, {'fmt': '{b}'}, {'pyw': {'n': 'b'}},
+        {'pyw': {'idx': [{'n': 'b'}, {'w': ['i', {'c': 0}]}]}}, {'pyw': {'n': 'i'}}, {'set': ['i', 9]}, {'pyw': {'n': 'i'}},
+        {'fmt': '{i}'}]},
+    # := inside comprehensions / lambdas, nested-scope reads (implementation-only calls)
+    {'ctx': {'d': [['items', [1, 2, 3]], ['k', 4]]}, 'calls': [
+        {'pysrc': '[(y := i) for i in items]'}, {'pyw': {'n': 'y'}}, {'fmt': '{y}'},
+        {'pysrc': '(lambda: (z := 5))()'}, {'pyw': {'n': 'z'}}, {'pysrc': '[w for i in items if (w := i * 2) > 2]'},
+        {'pysrc': '[i + k for i in items]'}, {'pysrc': '(lambda: k + 1)()'}, {'pysrc': '[(k := i) for i in items]'},
+        {'pyw': {'n': 'k'}}, {'fmt': '{k}'}]},
+]
 
 
 def result_kind(w):
@@ -276,6 +405,10 @@ def make_cases(stream, rng, n):
     if stream == 'grammar':
         for _ in range(n):
             cases.append(g.cyclic() if rng.random() < 0.02 else g.case())
+    elif stream == 'session':
+        sg = I.SessGen(rng)
+        for _ in range(n):
+            cases.append(sg.case())
     else:
         for _ in range(n):
             q = rng.random()
@@ -297,6 +430,13 @@ def new_out():
     return {'n': 0, 'nontrivial': [], 'counts': {}, 'mismatches': [], 'violations': [], 'samples': []}
 
 
+def check_stream(drv, stream, cases, out):
+    if stream == 'session':
+        check_sessions(drv, cases, out)
+    else:
+        check_cases(drv, cases, out)
+
+
 def run_chunk(args):
     stream, seed, n = args
     common.use_repo()
@@ -304,7 +444,7 @@ def run_chunk(args):
     drv = common.Driver()
     out = new_out()
     try:
-        check_cases(drv, make_cases(stream, rng, n), out)
+        check_stream(drv, stream, make_cases(stream, rng, n), out)
     finally:
         drv.close()
     # keep the payload small
@@ -328,6 +468,9 @@ def absorb(res, out):
     for s in out['samples']:
         if len(res.samples) < 3:
             res.samples.append(s)
+    for s in out.get('session_samples', []):
+        if len(res.extra.setdefault('session_samples', [])) < 2:
+            res.extra['session_samples'].append(s)
 
 
 def run(env, res):
@@ -338,7 +481,13 @@ def run(env, res):
         'sub-language, rf/ff, nested specs, truncated fields) or a container/special tag; 2% cyclic contexts (divergence '
         'class: RecursionError vs OutOfFuel). malformed stream: random strings over "{}[].:!a0 " of length 0-12 plus a biased '
         'variant, through string.Formatter().parse, _string.formatter_field_name_split and Context.get_formatted_value. '
-        'non-trivial = distinct case whose formatted value contains a brace or is not a plain string')
+        'non-trivial = distinct case whose formatted value contains a brace or is not a plain string. '
+        'session stream: ONE Context of 1-7 keys (ints, bools, lists of ints, a str), 2-4 primary calls — !py over '
+        'names/constants/+-*/comparisons/and/or/not/len/index with assignment expressions (x := e) at any depth, '
+        'targets that are / are not / later become context keys; formatted strings and containers reading those names; '
+        'context[k] = v and pop(k) between calls; arbitrary-Python !py with := inside comprehensions / lambdas and '
+        'nested-scope reads (implementation-only calls) — each binding call followed by reads of the bound names via '
+        '!py name and {name}; every session is distinct and non-trivial')
     drv = env.driver
     attr_table_check(drv, res)
     # 1. directed cases
@@ -352,12 +501,14 @@ def run(env, res):
     for s in ('{a}', '{a:rf}', 'x{a:rf}', ['{a}']):
         directed.append({'kind': 'cyclic', 'ctx': {'d': [['a', '{b}'], ['b', '{a}']]}, 'v': s})
     check_cases(drv, directed, out)
+    check_sessions(drv, [dict(kind='session', **d) for d in DIRECTED_SESSIONS], out)
     absorb(res, out)
     # 2. random streams
     n_g = env.n(3000, 200000)
     n_m = env.n(3000, 200000)
+    n_s = env.n(1500, 60000)
     jobs = []
-    for stream, total in (('grammar', n_g), ('malformed', n_m)):
+    for stream, total in (('grammar', n_g), ('malformed', n_m), ('session', n_s)):
         left = total
         while left > 0:
             n = min(CHUNK, left)
@@ -367,7 +518,7 @@ def run(env, res):
         for j in jobs:
             rng = random.Random(j[1])
             out = new_out()
-            check_cases(drv, make_cases(j[0], rng, j[2]), out)
+            check_stream(drv, j[0], make_cases(j[0], rng, j[2]), out)
             absorb(res, out)
     else:
         with multiprocessing.get_context('fork').Pool(min(12, len(jobs))) as pool:
@@ -380,6 +531,6 @@ def replay(env, res, payload):
     if 'case' in case and 'kind' not in case:
         case = case['case']
     out = new_out()
-    check_cases(env.driver, [case], out)
+    check_stream(env.driver, 'session' if case.get('kind') == 'session' else 'other', [case], out)
     absorb(res, out)
     res.rule = 'replay of one recorded case'
